@@ -394,6 +394,18 @@ def run_case(spec, sub=None):
                     tuple(map(tuple, tree.inputs)) != inputs or tuple(tree.output) != output
                 ):
                     viol.append(f"{what}: returned tree is not over the queried inputs/output")
+                if not viol and spec["kind"] == "hyper":
+                    # the tree answers for itself with the objective it was
+                    # stored under: its own score is the stored kind of score
+                    ok2, own = guarded(tree.get_score)
+                    if not ok2:
+                        viol.append(f"{what}: tree.get_score() raised {own}")
+                    elif abs(own - score_of(tree)) > 1e-9:
+                        viol.append(
+                            f"{what}: the returned tree scores itself {own} (its default objective), "
+                            f"but under the optimizer's objective '{spec['minimize']}' - the one its entry "
+                            f"is stored with - it scores {score_of(tree)}"
+                        )
                 if viol:
                     break
                 ans = (tuple(map(tuple, tree.get_path())), tuple(tree.sliced_inds), score_of(tree))
